@@ -56,6 +56,32 @@ def _stable_repr(o: object) -> str:
     return repr(o)
 
 
+def _default_value_repr(o: object) -> str:
+    """
+    Describe the default value of a parameter for hashing. Values whose representation is
+    a literal are described by it; anything else (whose `repr` may contain a memory address)
+    by its type only.
+
+    """
+    if o is None or isinstance(o, (bool, int, float, complex, str, bytes)):
+        return repr(o)
+    if isinstance(o, (tuple, list, set, frozenset)):
+        elements = [_default_value_repr(x) for x in o]
+        if isinstance(o, (set, frozenset)):
+            elements = sorted(elements)
+        return "{}({})".format(type(o).__name__, ", ".join(elements))
+    if isinstance(o, dict):
+        return "dict({})".format(
+            ", ".join(
+                sorted(
+                    _default_value_repr(k) + ": " + _default_value_repr(v)
+                    for (k, v) in o.items()
+                )
+            )
+        )
+    return "<{}.{}>".format(type(o).__module__, type(o).__qualname__)
+
+
 def fn_code_hash(fn: Callable, salt: str = None, environment: bytes = None) -> str:
     """
     Compute a hex digest of the code for a function.
@@ -114,6 +140,15 @@ def fn_code_hash(fn: Callable, salt: str = None, environment: bytes = None) -> s
     if hasattr(fn, "__code__"):
         code = getattr(fn, "__code__")  # type: code
         result = hash_if_code_object(code)
+        # Default values of parameters are kept by the function object, not by its code object
+        defaults = getattr(fn, "__defaults__", None)
+        kwdefaults = getattr(fn, "__kwdefaults__", None)
+        if defaults or kwdefaults:
+            sha256 = hashlib.sha256()
+            sha256.update(result.encode("utf-8"))
+            sha256.update(_default_value_repr(defaults or ()).encode("utf-8"))
+            sha256.update(_default_value_repr(kwdefaults or {}).encode("utf-8"))
+            result = sha256.hexdigest()[0:16]
         return result
     else:
         # If we can't get the code for the function, then return the name of the function
